@@ -1848,6 +1848,10 @@ func (interp *Interpreter) cfg(root *node, sc *scope, importPath, pkgName string
 			sc = sc.pop()
 
 		case funcDecl:
+			if len(n.typ.ret) > 0 && !isTerminating(n.child[3], "") {
+				err = n.cfgErrorf("missing return")
+				break
+			}
 			n.start = n.child[3].start
 			n.types, n.scope = sc.types, sc
 			sc = sc.pop()
@@ -1860,6 +1864,10 @@ func (interp *Interpreter) cfg(root *node, sc *scope, importPath, pkgName string
 			}
 
 		case funcLit:
+			if n.typ != nil && len(n.typ.ret) > 0 && !isTerminating(n.child[3], "") {
+				err = n.cfgErrorf("missing return")
+				break
+			}
 			n.types, n.scope = sc.types, sc
 			sc = sc.pop()
 			err = genRun(n)
@@ -3750,6 +3758,101 @@ func definedByGTA(sc *scope, n *node) bool {
 		}
 	}
 	return blank && sc.anc == n.interp.universe
+}
+
+// isTerminating returns true if statement n is a terminating statement, as
+// defined by the Go specification: the body of a function with results must
+// end in one. label is the label of n, if any.
+func isTerminating(n *node, label string) bool {
+	lastOf := func(stmts []*node) bool {
+		return len(stmts) > 0 && isTerminating(stmts[len(stmts)-1], "")
+	}
+	switch n.kind {
+	case returnStmt, gotoStmt:
+		return true
+	case exprStmt:
+		if len(n.child) == 1 && n.child[0].kind == callExpr {
+			c0 := n.child[0].child[0]
+			return c0.kind == identExpr && c0.ident == "panic" && (c0.sym == nil || c0.sym.kind == bltnSym)
+		}
+	case blockStmt:
+		return lastOf(n.child)
+	case labeledStmt:
+		return isTerminating(n.lastChild(), n.child[0].ident)
+	case ifStmt1, ifStmt3:
+		l := len(n.child)
+		return isTerminating(n.child[l-2], "") && isTerminating(n.child[l-1], "")
+	case forStmt0, forStmt1, forStmt4, forStmt6:
+		// A for statement without condition nor range clause.
+		return !hasBreak(n.lastChild(), label, true)
+	case switchStmt, switchIfStmt, typeSwitch:
+		clauses := n.lastChild().child
+		hasDefault := false
+		for _, c := range clauses {
+			if len(c.child) == 0 {
+				return false // Empty default clause.
+			}
+			body := c.lastChild()
+			if len(c.child) == 1 {
+				hasDefault = true
+			}
+			if hasBreak(body, label, true) {
+				return false
+			}
+			stmts := body.child
+			if n.kind == typeSwitch && len(stmts) > 0 && stmts[0].kind == identExpr {
+				stmts = stmts[1:] // The symbol of the guard, set in each clause.
+			}
+			if len(stmts) > 0 && stmts[len(stmts)-1].kind == fallthroughtStmt {
+				continue
+			}
+			if !lastOf(stmts) {
+				return false
+			}
+		}
+		return hasDefault
+	case selectStmt:
+		for _, c := range n.child[0].child {
+			stmts := c.child
+			if c.kind == commClause && len(stmts) > 0 {
+				stmts = stmts[1:] // The communication.
+			}
+			for _, s := range stmts {
+				if hasBreak(s, label, true) {
+					return false
+				}
+			}
+			if !lastOf(stmts) {
+				return false
+			}
+		}
+		return true
+	}
+	return false
+}
+
+// hasBreak returns true if n contains a break statement referring to the
+// enclosing statement labelled label: a break with this label, or without label
+// if top is true and the break is not in a nested for, switch or select statement.
+func hasBreak(n *node, label string, top bool) bool {
+	switch n.kind {
+	case breakStmt:
+		if len(n.child) > 0 {
+			return label != "" && n.child[0].ident == label
+		}
+		return top
+	case funcLit:
+		return false
+	case forStmt0, forStmt1, forStmt2, forStmt3, forStmt4, forStmt5, forStmt6, forStmt7, forRangeStmt,
+		switchStmt, switchIfStmt, typeSwitch, selectStmt:
+		top = false
+	}
+	for _, c := range n.child {
+		if hasBreak(c, label, top) {
+			return true
+		}
+	}
+	return false
 }
 
 // isInside returns true if n is a descendant of node anc.
